@@ -626,6 +626,8 @@ type Reach struct {
 	start  ssa.Instruction
 	startB *ssa.BasicBlock
 	startI int
+	// fromBlock: reachability was started at the first instruction of startB (RunFromBlock)
+	fromBlock bool
 }
 
 func NewReach(fn *ssa.Function) *Reach {
@@ -646,6 +648,7 @@ func (r *Reach) Run(start ssa.Instruction) *Reach {
 	r.from = map[*ssa.BasicBlock]Edge{}
 	r.via = map[Edge]bool{}
 	r.start = start
+	r.fromBlock = false
 	if start == nil {
 		if len(r.Fn.Blocks) == 0 {
 			return r
@@ -674,6 +677,9 @@ func (r *Reach) RunFromBlock(b *ssa.BasicBlock) *Reach {
 	r.from = map[*ssa.BasicBlock]Edge{}
 	r.via = map[Edge]bool{}
 	r.start = nil
+	r.startB = b
+	r.startI = -1
+	r.fromBlock = true
 	r.leave(b, 0, -1)
 	r.drain()
 	return r
@@ -815,7 +821,7 @@ func (r *Reach) Instr(in ssa.Instruction) bool {
 			return true
 		}
 	}
-	if r.start != nil && b == r.startB && idx > r.startI {
+	if (r.start != nil || r.fromBlock) && b == r.startB && idx > r.startI {
 		for i := r.startI + 1; i < idx; i++ {
 			if r.Barrier[b.Instrs[i]] {
 				return false
